@@ -48,13 +48,16 @@ class ManagerStub(object):
 
     def set_prekeys_as_sent(self, prekeys):
         self.calls.append(("set_prekeys_as_sent", [p.getId() for p in prekeys]))
+        self.unsent = [p for p in self.unsent if p.getId() not in [q.getId() for q in prekeys]]
 
     @property
     def identity(self):
         return StubKeyPair()
 
+    unsent = ()          # one-time keys generated but not yet confirmed by the server (state a harness may set)
+
     def load_unsent_prekeys(self):
-        return []
+        return list(self.unsent)
 
 
 class StubPub(object):
